@@ -417,7 +417,7 @@ func TestVerifC20Converge(t *testing.T) {
 	}
 	defer cli.Close()
 
-	perRouter := r.N(40, 500)
+	perRouter := r.N(30, 500)
 	par := 16
 	if r.Thorough() {
 		par = 24
